@@ -27,8 +27,11 @@ N = 3
 WORDS = {
     "a0+": {(0, 0): "+"}, "a1-": {(0, 1): "-"}, "a2+": {(0, 2): "+"}, "a0+a1-": {(0, 0): "+", (1, 1): "-"}, "a2+a0-": {(0, 2): "+", (1, 0): "-"}, "n1": {(0, 1): "+", (1, 1): "-"},
     "a0-a0+": {(0, 0): "-", (1, 0): "+"}, "a2+a1+a1-a2-": {(0, 2): "+", (1, 1): "+", (2, 1): "-", (3, 2): "-"}, "I": {}, "a1+a2-a0+": {(0, 1): "+", (1, 2): "-", (2, 0): "+"},
+    "a1-a2+": {(0, 1): "-", (1, 2): "+"},
 }
-SENTS = {"s1": ["a0+", "a1-"], "s2": ["a0+a1-", "I"], "s3": ["n1", "a2+a0-", "a0-a0+"], "s4": ["a2+a1+a1-a2-", "a2+"], "s5": ["a1+a2-a0+", "n1"], "s6": ["a1-"]}
+SENTS = {"s1": ["a0+", "a1-"], "s2": ["a0+a1-", "I"], "s3": ["n1", "a2+a0-", "a0-a0+"], "s4": ["a2+a1+a1-a2-", "a2+"], "s5": ["a1+a2-a0+", "n1"], "s6": ["a1-"],
+         # products in which two different word pairs concatenate to the SAME word (coefficients must add up)
+         "s7": ["a0+", "a0+a1-"], "s8": ["a1-a2+", "a2+"]}
 MAPPINGS = {
     "jordan_wigner": lambda f: qp.jordan_wigner(f, ps=True),
     "parity_transform(n=3)": lambda f: qp.parity_transform(f, N, ps=True),
@@ -204,11 +207,11 @@ def run(ctx):
     items = []
     maps = list(MAPPINGS) if ctx.tier == "thorough" else list(MAPPINGS)[:3]
     # every coefficient-is-zero test inside the mappings forks the execution: quick keeps to short operand sentences
-    pairs = [("s1", "s2"), ("s4", "s6"), ("s6", "s5"), ("s1", "s1")] if ctx.tier == "quick" else list(itertools.product(SENTS, repeat=2))
+    pairs = [("s1", "s2"), ("s4", "s6"), ("s6", "s5"), ("s1", "s1"), ("s7", "s8"), ("s2", "s2")] if ctx.tier == "quick" else list(itertools.product(SENTS, repeat=2))
     for m in maps:
         items.append(("CAR", m, None, None))
         for a in SENTS:
-            if ctx.tier == "quick" and a in ("s2", "s6"):
+            if ctx.tier == "quick" and a in ("s2", "s6", "s7", "s8"):
                 continue
             items.append(("adjoint", m, a, None))
             items.append(("re-ordering", m, a, None))
